@@ -3339,6 +3339,8 @@ impl Zeroconf {
                     out.add_question(q.entry_name(), q.entry_type());
                 }
                 out.clear_cache_flush_bits();
+                // ... and repeat the query id, which is only sent for unicast.
+                out.set_multicast(false);
             }
 
             if let Err(InternalError::IntfAddrInvalid(intf_addr)) = send_dns_outgoing(
